@@ -391,6 +391,88 @@ def _has_attr(o: Any, nm: str) -> bool:
         return False
 
 
+# ------------------------------------------------------------------ engine drops (forloop / tablerowloop / block)
+
+# The documented keys (docs/tag_reference.md, docs/optional_tags.md). Every other attribute name of the drop objects —
+# slots, methods, dunders — must behave as undefined from a template.
+DOCUMENTED = {
+    "forloop": {"name", "length", "index", "index0", "rindex", "rindex0", "first", "last", "parentloop"},
+    "tablerowloop": {"length", "index", "index0", "rindex", "rindex0", "first", "last", "col", "col0", "col_first", "col_last", "row"},
+    "block": {"super"},
+}
+DROP_HOSTS = {
+    "forloop": "{% for x in objs %}@{% endfor %}",
+    "forloop.parentloop": "{% for y in objs limit: 1 %}{% for x in objs %}@{% endfor %}{% endfor %}",
+    "tablerowloop": "{% tablerow x in objs cols: 2 %}@{% endtablerow %}",
+    "block": "{% block b %}@{% endblock %}",
+}
+
+
+def drop_names() -> dict[str, list[str]]:
+    """Every attribute name of the live drop classes (computed from the code under test, so new slots are covered)."""
+    from liquid2.builtin.tags.extends_tag import BlockDrop
+    from liquid2.builtin.tags.for_tag import ForLoop
+    from liquid2.shopify.tags.tablerow_tag import TableRow
+
+    out = {}
+    for k, cls in (("forloop", ForLoop), ("tablerowloop", TableRow), ("block", BlockDrop)):
+        names = set(dir(cls))
+        for c in cls.__mro__:
+            names.update(getattr(c, "__slots__", ()))
+        names.update(NAMES)
+        # `size`, `first`, `last` are the language's own special properties of any collection (computed from len() and
+        # iteration over the documented keys), not attribute reads
+        out[k] = sorted(n for n in names if n not in DOCUMENTED[k] and "'" not in n and n not in ("size", "first", "last"))
+    out["forloop.parentloop"] = out["forloop"]
+    return out
+
+
+def check_drop(drop: str, nm: str, mode: str, res: ShardResult | None) -> list[tuple[str, Any, Any]]:
+    out: list[tuple[str, Any, Any]] = []
+    q = "'" + nm + "'"
+    probes = ["[{{ " + drop + "[" + q + "] | default: 'UNDEF' }}]", "[{{ " + drop + "[v] | default: 'UNDEF' }}]", "{% if " + drop + "[" + q + "] %}[TRUTHY]{% else %}[UNDEF]{% endif %}"]
+    if nm.isidentifier():
+        probes.append("[{{ " + drop + "." + nm + " | default: 'UNDEF' }}]")
+    objs = make_objects()
+    data = {"objs": [objs["dict"], objs["plain"]], "v": nm}
+    e = env()
+    for probe in probes:
+        src = DROP_HOSTS[drop].replace("@", probe)
+        try:
+            t = e.from_string(src)
+        except LiquidError:
+            continue
+        rendered = None
+        try:
+            if mode == "sync":
+                rendered = t.render(**data)
+            else:
+                kind, val = run_solo(t.render_async(**data))
+                if kind == "ok":
+                    rendered = val
+                elif not isinstance(val, LiquidError):
+                    raise val
+        except LiquidError:
+            pass
+        except Exception as x:  # noqa: BLE001
+            if res is not None:
+                res.count("foreign:" + type(x).__name__)
+        if res is not None:
+            res.evaluations += 1
+            res.nontrivial.add(h64([drop, nm, probe, mode]))
+            res.outcomes.add(h64([rendered is None]))
+        if rendered is None:
+            continue
+        import re as _re
+
+        cells = _re.findall(r"\[([^\]]*)\]", rendered)
+        bad = [c for c in cells if c != "UNDEF"]
+        if bad or not cells:
+            out.append((f"C05:undocumented-key-of-engine-drop-is-defined:{drop.split('.')[0]}", f"{drop}[{nm!r}] is undefined", {"source": src, "output": rendered[:160]}))
+            break
+    return out
+
+
 _SP: dict[str, Any] = {}
 
 
@@ -414,6 +496,10 @@ def _cases(tier: str) -> list[tuple]:
         for a, b in itertools.product(NAMES[:30], repeat=2):
             for shape in shapes[:7]:
                 cases.append(("{{ o." + a + "." + b + " }}{{ o['" + a + "']['" + b + "'] }}{% assign q = o." + a + " %}{{ q." + b + " }}", b, shape, "sync"))
+    for drop, names in drop_names().items():
+        for nm in names:
+            for mode in ("sync", "async"):
+                cases.append(("<drop>", nm, drop, mode))
     _SP.update(tier=tier, cases=cases)
     return cases
 
@@ -434,7 +520,8 @@ def run_shard(shard) -> ShardResult:
     for i in range(lo, hi):
         site, nm, shape, mode = cases[i]
         res.cases += 1
-        for sig, exp, obs in check_site(site, nm, shape, mode, res):
+        found = check_drop(shape, nm, mode, res) if site == "<drop>" else check_site(site, nm, shape, mode, res)
+        for sig, exp, obs in found:
             res.violation(sig, {"tier": tier, "index": i, "site": site, "name": nm, "shape": shape, "mode": mode}, exp, obs)
     if lo % 13 == 0:
         res.samples.append(list(cases[lo]))
@@ -443,6 +530,10 @@ def run_shard(shard) -> ShardResult:
 
 def replay(case: dict[str, Any]) -> list[dict[str, Any]]:
     res = ShardResult()
-    for sig, exp, obs in check_site(case["site"], case["name"], case["shape"], case["mode"], None):
+    if case["site"] == "<drop>":
+        found = check_drop(case["shape"], case["name"], case["mode"], None)
+    else:
+        found = check_site(case["site"], case["name"], case["shape"], case["mode"], None)
+    for sig, exp, obs in found:
         res.violation(sig, case, exp, obs)
     return res.violations
